@@ -16,7 +16,7 @@ func init() {
 		Run:   runC18,
 		Explain: "(a) envelope path (the function calling SignPlugin.GenerateEnvelope): every success exit is cut by plugin error, response envelope type == requested type, ParseEnvelope(requested type, response bytes), Envelope.Verify, payload type, " +
 			"payload decode, content.Equal(requested descriptor, signed target), the annotation-preservation loop (ranges over the REQUESTED descriptor's annotations; comma-ok lookup in the signed ones and value equality per pair; true only after the loop) and an empty unknown-field scan of the verified payload bytes; " +
-			"the bytes returned are the bytes that were parsed and verified, the SignerInfo returned is the verified one; the scan removes only JSON names of ocispec.Descriptor fields and reports the leftovers of both levels; " +
+			"the bytes returned are the bytes that were parsed and verified, the SignerInfo returned is the verified one; the scan removes only JSON names of ocispec.Descriptor fields (named in delete statements, compared with the key, or held in a constant table the key is looked up in) and reports the leftovers of both levels; " +
 			"(b) raw path: describe-key and generate-signature answers are accepted only under string equality of the key id; the request carries the key id, EncodeKeySpec/HashAlgorithmFromKeySpec of the described key spec and the payload; certificate parse errors are fail-closed; " +
 			"the generic signer returns only after Envelope.Sign, Envelope.Verify (self-verification) and the payload-type check, returning the signed bytes and the verified SignerInfo; " +
 			"(c) Sign/SignBlob return only what (a) or (b) returned, chosen by capability; (d) the scan's type assertion is comma-ok (no panic); (e) the key-spec/hash codec tables are total and mutually inverse (shared with C07).",
@@ -359,7 +359,18 @@ func c18Scan(c *Ctx, SC *ssa.Function) {
 		if bi, ok := call.Call.Value.(*ssa.Builtin); ok && bi.Name() == "delete" {
 			k, isK := call.Call.Args[1].(*ssa.Const)
 			if !isK {
-				okDel = false
+				// table-driven removal (`for _, n := range known { delete(m, n) }`): the key removed is, whenever the statement
+				// runs, an element of a constant table; the keys removed are among the table's constants, each of which is held
+				// to the condition of a key removed by name
+				ks, isElem := c18ElemOfConstSet(w, call.Call.Args[1], nil, 0)
+				if !isElem {
+					okDel = false
+					deleted = append(deleted, "<"+trunc(desc(call.Call.Args[1]), 60)+">")
+					continue
+				}
+				for _, s := range ks {
+					exclude(call.Call.Args[0], s)
+				}
 				continue
 			}
 			s, _ := unquote(constString(k))
@@ -383,8 +394,8 @@ func c18Scan(c *Ctx, SC *ssa.Function) {
 	}
 	// a level may also be reported by a loop of the scan itself that collects every key except constants it compares the
 	// key with (filter while collecting, see c18KeyCollector): those constants are keys taken out of the report, too
-	colOuter := c18KeyCollector(w, SC, isOuter)
-	colInner := c18KeyCollector(w, SC, isInner)
+	colOuter := c18KeyCollector(w, SC, isOuter, nil)
+	colInner := c18KeyCollector(w, SC, isInner, nil)
 	if colOuter.ok {
 		for _, s := range colOuter.filter {
 			exclude(outerMap, s)
@@ -398,26 +409,18 @@ func c18Scan(c *Ctx, SC *ssa.Function) {
 			break
 		}
 	}
-	c.Check(okDel && outer != "" && len(deleted) >= 5, "scan/removes-only-descriptor-fields", "the scan removes only the JSON names of ocispec.Descriptor fields (and targetArtifact at the outer level): everything else is reported", w.FnPos(SC), fmt.Sprintf("deleted keys: %v", deleted))
-	// both levels reported
-	okRet := false
-	for _, b := range SC.Blocks {
-		if r, ok := blockTerm(b).(*ssa.Return); ok {
-			d := desc(r.Results[0])
-			if strings.HasPrefix(d, "call:builtin:append(call:") && strings.Count(d, "call:ngo/signer.") >= 2 {
-				okRet = true
-			}
-		}
-	}
-	// the same on values: the slice returned contains every key of the map decoded from the argument (payload level) and
-	// every key of its "targetArtifact" member (descriptor level), whether gathered by a module helper or by
-	// slices.AppendSeq / slices.Collect over maps.Keys (library contract: all keys of the map, each once)
+	// both levels reported, decided on values: the slice returned contains every key of the map decoded from the argument
+	// (payload level) and every key of its "targetArtifact" member (descriptor level), whether gathered by a module helper,
+	// by slices.AppendSeq / slices.Collect over maps.Keys (library contract: all keys of the map, each once), by a loop of the
+	// scan or by a filtering collector helper. (The former test on the printed form of the return expression — "append of
+	// two module calls" — did not look at WHICH maps the two calls were handed; the base tree passes the test on values.)
 	reported := map[ssa.Value]string{}
+	cols := &c18Collectors{filter: map[ssa.Value][]string{}, fns: map[*ssa.Function]bool{}}
 	firstRet := true
 	for _, b := range SC.Blocks {
 		if r, ok := blockTerm(b).(*ssa.Return); ok && len(r.Results) == 1 {
 			rep := map[ssa.Value]string{}
-			c18ReportedMaps(w, r.Results[0], rep, 0)
+			c18ReportedMaps(w, r.Results[0], rep, cols, 0)
 			if firstRet {
 				reported, firstRet = rep, false
 			} else {
@@ -431,10 +434,19 @@ func c18Scan(c *Ctx, SC *ssa.Function) {
 	}
 	var innerMap ssa.Value
 	for m := range reported {
-		if innerMaps[m] {
+		// the descriptor level by value: the asserted map itself, or the variable that holds it or nil (c18InnerLevel)
+		if innerMaps[m] || isInner(m) {
 			innerMap = m
 		}
 	}
+	// the constants a collector helper filters out are keys taken out of the report at the level of the map it was handed
+	// (whether or not that map turns out to be one of the two levels)
+	for m, ks := range cols.filter {
+		for _, s := range ks {
+			exclude(m, s)
+		}
+	}
+	c.Check(okDel && outer != "" && len(deleted) >= 5, "scan/removes-only-descriptor-fields", "the scan removes only the JSON names of ocispec.Descriptor fields (and targetArtifact at the outer level): everything else is reported", w.FnPos(SC), fmt.Sprintf("deleted keys: %v", deleted))
 	if _, has := reported[outerMap]; !has && outerMap != nil && colOuter.ok {
 		reported[outerMap] = "loop"
 	}
@@ -448,7 +460,7 @@ func c18Scan(c *Ctx, SC *ssa.Function) {
 	_, outerReported := reported[outerMap]
 	byValue := outerMap != nil && innerMap != nil && outerReported
 	lvl := "one level is not reported"
-	if !(okRet || byValue) {
+	if !byValue {
 		if !outerReported {
 			lvl += "; payload level: " + colOuter.why
 		}
@@ -456,7 +468,7 @@ func c18Scan(c *Ctx, SC *ssa.Function) {
 			lvl += "; descriptor level: " + colInner.why
 		}
 	}
-	c.Check(okRet || byValue, "scan/reports-both-levels", "the scan reports the leftover keys of the descriptor level and of the payload level", w.FnPos(SC), lvl)
+	c.Check(byValue, "scan/reports-both-levels", "the scan reports the leftover keys of the descriptor level and of the payload level", w.FnPos(SC), lvl)
 	// the map scanned is decoded from the parameter
 	okSrc := false
 	for _, ci := range findCalls(SC, "encoding/json.Unmarshal") {
@@ -471,10 +483,18 @@ func c18Scan(c *Ctx, SC *ssa.Function) {
 			continue
 		}
 		for _, rl := range rangeLoops(f) {
-			if desc(rl.X) != "param:"+f.Params[0].Name() {
-				continue
+			if len(f.Params) == 0 || desc(rl.X) != "param:"+f.Params[0].Name() {
+				if _, isParam := rl.X.(*ssa.Parameter); !isParam || !cols.fns[f] {
+					continue
+				}
 			}
 			nks++
+			if cols.fns[f] {
+				// a filtering collector: every key of its map argument is reported except the constants of its filter
+				// (c18KeyCollector L1–L6 at the call), and those constants were held to scan/removes-only-descriptor-fields
+				c.OK("scan/keyset-complete", "the key-set helper reports every key of the map (a helper that skips a key only after finding it in a constant table is held to the removal rule for those constants)", w.FnPos(f))
+				continue
+			}
 			lb := loopBlocks(rl.Header)
 			cond, app := false, false
 			for bi := range lb {
@@ -497,7 +517,7 @@ func c18Scan(c *Ctx, SC *ssa.Function) {
 		// no hand-written key-set loop: both levels are gathered by the library (maps.Keys yields every key of the map,
 		// slices.AppendSeq / slices.Collect keep every value of the sequence) — nothing in the module can filter a key
 		// — or by a loop of the scan that appends every key it has not compared equal to a constant (c18KeyCollector L2–L6)
-		complete := func(how string) bool { return how == "library" || how == "loop" }
+		complete := func(how string) bool { return how == "library" || how == "loop" || how == "collector" }
 		byLibrary := byValue && complete(reported[outerMap]) && complete(reported[innerMap])
 		c.Check(byLibrary, "scan/keyset-complete", "the key-set helper reports every key of the map (or the keys are gathered by maps.Keys + slices.AppendSeq/Collect, or by a loop of the scan that skips a key only after comparing it equal to a constant)", w.FnPos(SC), "no key-set loop found")
 	}
